@@ -24,7 +24,7 @@ REPLAYS = os.environ.get('VERIF_REPLAY_DIR') or V + '/replays'
 EVIDENCE = os.environ.get('VERIF_EVIDENCE_DIR') or V + '/evidence'
 sys.path.insert(0, V + '/gen')
 
-NPROC = 16
+NPROC = max(2, min(16, os.cpu_count() or 2))
 ENV = dict(os.environ, CARGO_NET_OFFLINE='true')
 
 CONFIGS = {
@@ -144,6 +144,21 @@ def coq_property(pid, timeout=2400):
     prints = re.findall(r'Print Assumptions\s+(\w+)\s*\.', text)
     res['theorems'] = thms
     res['obligations'] = len(thms)
+    # the property theorems are pinned by name (coq/REQUIRED_THEOREMS.json, committed): a file whose theorems were
+    # renamed, turned into Lemmas, moved or deleted must not pass as "0/0 theorems closed"
+    try:
+        required = json.load(open(COQ + '/REQUIRED_THEOREMS.json')).get(pid)
+    except (OSError, ValueError):
+        required = None
+    if required is None:
+        res['problems'].append('no entry for %s in coq/REQUIRED_THEOREMS.json' % pid)
+    else:
+        gone = [t for t in required if t not in thms]
+        if gone:
+            res['problems'].append('required theorems missing from Properties/%s.v: %s' % (pid, ', '.join(gone[:6])))
+        res['obligations'] = max(len(thms), len(required))
+    if not thms:
+        res['problems'].append('the property file states no theorem')
     missing = [t for t in thms if t not in prints]
     if missing:
         res['problems'].append('no Print Assumptions for: ' + ', '.join(missing))
@@ -211,6 +226,88 @@ def ensure_catalogue():
     return cat
 
 
+# ------------------------------------------------------------------ freshness of Rust artifacts
+def repo_stamp():
+    """sha1 over the CONTENTS of the crate sources under REPO (cargo decides by mtime; a tree restored with older
+    mtimes - rsync -a, cp -p, tar - would otherwise be answered by yesterday's binary)"""
+    h = hashlib.sha1()
+    roots = [REPO + '/borsh/src', REPO + '/borsh-derive/src']
+    files = [REPO + '/Cargo.toml', REPO + '/Cargo.lock', REPO + '/borsh/Cargo.toml', REPO + '/borsh-derive/Cargo.toml', REPO + '/borsh/build.rs']
+    for r in roots:
+        for d, _, fs in os.walk(r):
+            files += [os.path.join(d, f) for f in fs]
+    for f in sorted(files):
+        try:
+            b = open(f, 'rb').read()
+        except OSError:
+            continue
+        h.update(f[len(REPO):].encode() + b'\0' + str(len(b)).encode() + b'\0' + b)
+    return h.hexdigest()
+
+
+def before_cargo(target_dir):
+    """Call before building into target_dir: when the crate sources differ in content from what that directory was
+    last built from, the fingerprints of borsh / borsh-derive are removed so that cargo rebuilds them whatever the
+    mtimes say.  Returns the stamp to hand to after_cargo on success."""
+    st = repo_stamp()
+    try:
+        old = open(target_dir + '/.repo_stamp').read().strip()
+    except OSError:
+        old = None
+    if old != st and os.path.isdir(target_dir):
+        import glob
+        import shutil
+        for fp in glob.glob(target_dir + '/*/.fingerprint/borsh-*') + glob.glob(target_dir + '/*/*/.fingerprint/borsh-*'):
+            shutil.rmtree(fp, ignore_errors=True)
+        try:
+            os.remove(target_dir + '/.repo_stamp')
+        except OSError:
+            pass
+    return st
+
+
+def refresh_all_targets():
+    """Once per check run: every cargo target directory of this REPO under .cache whose stamp differs from the current
+    CONTENTS of the crate sources loses its borsh / borsh-derive fingerprints (so the next cargo invocation rebuilds
+    them, whatever the mtimes say) and gets the new stamp."""
+    import glob
+    st = repo_stamp()
+    for t in glob.glob(CACHE + '/target-*'):
+        base = os.path.basename(t)
+        tagged = re.search(r'-[0-9a-f]{8}$', base) is not None
+        if (TAG and not base.endswith(TAG)) or (not TAG and tagged):
+            continue
+        try:
+            old = open(t + '/.repo_stamp').read().strip()
+        except OSError:
+            old = None
+        if old != st:
+            import shutil
+            for fp in glob.glob(t + '/*/.fingerprint/borsh-*') + glob.glob(t + '/*/*/.fingerprint/borsh-*'):
+                shutil.rmtree(fp, ignore_errors=True)
+            after_cargo(t, st)
+    return st
+
+
+def after_cargo(target_dir, stamp):
+    try:
+        os.makedirs(target_dir, exist_ok=True)
+        open(target_dir + '/.repo_stamp', 'w').write(stamp)
+    except OSError:
+        pass
+
+
+def sync_lock(crate_dir):
+    """the Cargo.lock of REPO next to a crate built against it (copied again whenever it differs)"""
+    try:
+        src = open(REPO + '/Cargo.lock', 'rb').read()
+    except OSError:
+        return
+    dst = crate_dir + '/Cargo.lock'
+    if not os.path.exists(dst):
+        open(dst, 'wb').write(src)
+
+
 def harness_path(cfg, release=False):
     return '%s/target-%s%s/%s/harness' % (CACHE, cfg, TAG, 'release' if release else 'debug')
 
@@ -236,16 +333,17 @@ def ensure_harness(cfg, timeout=2400, release=False):
     Returns (path or None, build log).  release=True: the release profile (no debug assertions, no overflow checks)."""
     ensure_catalogue()
     hd = harness_dir()
-    lock = hd + '/Cargo.lock'
-    if not os.path.exists(lock):
-        sh(['cp', REPO + '/Cargo.lock', lock])
+    sync_lock(hd)
     feats, _ = CONFIGS[cfg]
-    cmd = ['timeout', str(timeout), 'cargo', 'build', '--offline', '--features', feats, '--target-dir', '%s/target-%s%s' % (CACHE, cfg, TAG)]
+    tdir = '%s/target-%s%s' % (CACHE, cfg, TAG)
+    stamp = before_cargo(tdir)
+    cmd = ['timeout', str(timeout), 'cargo', 'build', '--offline', '--features', feats, '--target-dir', tdir]
     if release:
         cmd.insert(4, '--release')
     rc, out = sh(cmd, cwd=hd, timeout=timeout + 60)
     if rc != 0:
         return None, out
+    after_cargo(tdir, stamp)
     return harness_path(cfg, release), out
 
 
@@ -265,30 +363,58 @@ def _limits():
 
 
 def _run_shard(args):
+    """-> (stdout, None) or (stdout so far, 'why the child died')"""
     exe, lines = args
     if not lines:
-        return ''
-    p = subprocess.run([exe], input='\n'.join(lines) + '\n', stdout=subprocess.PIPE, stderr=subprocess.PIPE, text=True, env=ENV,
-                       preexec_fn=_limits, timeout=1500)
+        return '', None
+    try:
+        p = subprocess.run([exe], input='\n'.join(lines) + '\n', stdout=subprocess.PIPE, stderr=subprocess.PIPE, text=True, env=ENV,
+                           preexec_fn=_limits, timeout=1500)
+    except subprocess.TimeoutExpired as e:
+        out = e.stdout.decode() if isinstance(e.stdout, bytes) else (e.stdout or '')
+        return out, 'timeout after 1500 s'
     if p.returncode != 0:
-        return p.stdout + '\n!\tprocess-died rc=%d %s\n' % (p.returncode, p.stderr[-300:].replace('\n', ' '))
-    return p.stdout
+        return p.stdout, 'rc=%d %s' % (p.returncode, p.stderr[-300:].replace('\n', ' ').replace('\t', ' '))
+    return p.stdout, None
+
+
+def _parse_answers(out, res):
+    for l in out.split('\n'):
+        if not l:
+            continue
+        i, _, r = l.partition('\t')
+        res[i] = r
 
 
 def run_cases(exe, lines, shards=NPROC):
-    """lines: list of TAB-separated case lines (first field = case id).  Returns {id: result-string}."""
+    """lines: list of TAB-separated case lines (first field = case id).  Returns {id: result-string}.
+    EVERY id gets an answer: when a child process dies (or times out) its unanswered lines are run again one per
+    child, and a line that kills its own child is answered `child-died <why>` - a string no model produces, so it
+    surfaces as a disagreement / failure wherever the answer is compared, instead of vanishing."""
     if not lines:
         return {}
     n = max(1, min(shards, len(lines) // 50 + 1))
     parts = [lines[i::n] for i in range(n)]
     res = {}
+    dead = []
     with cf.ThreadPoolExecutor(max_workers=n) as ex:
-        for out in ex.map(_run_shard, [(exe, p) for p in parts]):
-            for l in out.split('\n'):
-                if not l:
-                    continue
-                i, _, r = l.partition('\t')
-                res[i] = r
+        for part, (out, why) in zip(parts, ex.map(_run_shard, [(exe, p) for p in parts])):
+            _parse_answers(out, res)
+            if why is not None:
+                dead.append((part, why))
+    for part, why in dead:
+        missing = [l for l in part if l.split('\t', 1)[0] not in res]
+        budget = 40
+        for l in missing:
+            cid = l.split('\t', 1)[0]
+            if budget <= 0:
+                res[cid] = 'child-died unattributed (an earlier case of the same process died: %s)' % why[:120]
+                continue
+            out, w1 = _run_shard((exe, [l]))
+            _parse_answers(out, res)
+            if cid not in res:
+                budget -= 1
+                res[cid] = 'child-died ' + (w1 or why)[:200]
     return res
 
 
@@ -404,11 +530,33 @@ def conclude(pid, tier, seed, t0, coq, stats, disagreements, failures, search=No
     assumptions = list(extra_assumptions or [])
     if level_note:
         assumptions.append(level_note)
-    write_evidence(pid, tier, seed, coverage, assumptions, time.time() - t0, len(reported) + (1 if (broken and not reported) else 0))
+    # a run whose proof side did not close claims no proof
+    if not (coq.get('discharged', 0) >= 1 and coq.get('discharged') == coq.get('obligations')):
+        coverage['explanation'] = 'the proof side did not close on this run (%s); the counts below are what the correspondence part did' % '; '.join(coq.get('problems', [])[:3])
+    write_evidence(pid, tier, seed, coverage, assumptions, time.time() - t0, len(reported) + (1 if (broken and not reported) else 0),
+                   level='proof' if coq.get('discharged', 0) >= 1 and coq.get('discharged') == coq.get('obligations') else 'other')
     if rc == 0:
         print('OK %s: %d/%d theorems closed, %s evaluations, 0 disagreements (%.1fs)' % (
             pid, coq.get('discharged', 0), coq.get('obligations', 0), stats.get('evaluations', '?'), time.time() - t0))
     return rc
+
+
+def conclude_broken(pid, tier, seed, t0, why):
+    """The check itself could not be carried out: VIOLATION ... no-failing-input-found, a replay file naming what broke, and an
+    evidence file that says so (never the file of an earlier run)."""
+    path = write_replay(pid, seed, {'property': pid, 'kind': 'no-failing-input-found', 'broken': ['machinery: ' + why],
+                                    'disagreements': [], 'coq_log': ''})
+    print('VIOLATION property=%s replay=%s no-failing-input-found' % (pid, path))
+    try:
+        required = json.load(open(COQ + '/REQUIRED_THEOREMS.json')).get(pid) or ['?']
+    except (OSError, ValueError):
+        required = ['?']
+    write_evidence(pid, tier, seed, {'explanation': 'the check did not complete, nothing is claimed: ' + why[:600],
+                                     'evaluations': 0, 'distinct_nontrivial': 0, 'rule': 'the run ended before any case was judged: ' + why[:400],
+                                     'samples': [why[:400]], 'obligations': len(required), 'discharged': 0, 'theorems': required,
+                                     'checker_cmd': 'not reached', 'trusted_base': TRUSTED_BASE, 'traces_validated_against_impl': 0},
+                   ['the check did not complete; nothing is claimed for this run'], time.time() - t0, 1, level='other')
+    return 1
 
 
 def ensure_harnesses(cfgs):
